@@ -12,11 +12,12 @@ import (
 	"verif/mc/univ"
 )
 
-var c14Sigma = []string{"a", "b", "é", "あ", "😀", "́", "\n"}
+var c14Sigma = []string{"a", "b", "é", "あ", "😀", "́", "\n", "\ufffd"}
 
 var c14Regexes = []string{
 	"a", "b", "é", "あ", "😀", "ab", "a.", ".", "..", "[ab]", "[^a]", "[é😀]", "\\p{Han}?", "^", "$", "^a", "a$", "^$", "a*", "b?", "(a|b)*", "()", "", "a*?", ".*?", ".*", "\\n?", "(a)", "(a)(b)?", "(?<x>a)", "(?<x>a)|(?<y>b)",
 	"((a)b)", "(a|(b))", "(?<all>(?<head>a)b*)", "(é)|(あ)", "(.)(.)", "((é)x?)", "a|b|é", "[a-b]+", "\\w", "\\W", "\\s", "\\S+", "́", "á", "(?i)A", "A", "É", "(?<n>.)\\n", "^.", ".$", "(?:a)", "\\b", "\\Ba",
+	"^a$", "^ab$", "^é$", "^😀$", "^ab", "ab$", "^\ufffd$", "\ufffd", "^a\\n$", "(?:^a$)", "^a$|b",
 	"(a*)*", "(a?)+", "x*", "(x)?", "(?:(b)|(a))+", "((a)|(b))+", "(?:(é)|(a)|(b))+", "(?:(?<p>b)|(?<q>.))*", "((.)|(a))+?b", "(?:(a)|(b)|(é))+$", "(?:(.)(a)?)+", "(a)?(b)?(é)?(a)?", "ai", "ag", "am", "agi", "a\\n", ".\\n.", "a|", "|a", "(", "[", "a{2}", "a{1,2}", "(a){2}",
 }
 
@@ -473,7 +474,7 @@ func init() {
 	engine.Register(&engine.Check{
 		ID:    "C14",
 		Level: "exploration",
-		Rule: "all subjects of length <= 4 (thorough 5) over a 7-symbol alphabet mixing 1-, 2-, 3- and 4-byte characters, a combining mark and newline x 70 regexes (literals of every width, classes, anchors, empty-matching forms, unnamed/named/nested/optional groups, alternation with unmatched groups, invalid patterns, patterns whose text collides with pattern+flag of another) x 10 flag sets through ONE compiled program (so the regexp cache is shared by the whole history): match must report exactly what Go's regexp plus an independent byte->code-point conversion reports; test, capture, scan, splits, split/2, sub, gsub must be the documented compositions and terminate; every reported (offset, length) must slice the subject to the reported string. " +
+		Rule: "all subjects of length <= 4 (thorough 5) over an 8-symbol alphabet mixing 1-, 2-, 3- and 4-byte characters, a combining mark and newline x 70 regexes (literals of every width, classes, anchors, empty-matching forms, unnamed/named/nested/optional groups, alternation with unmatched groups, invalid patterns, patterns whose text collides with pattern+flag of another) x 10 flag sets through ONE compiled program (so the regexp cache is shared by the whole history): match must report exactly what Go's regexp plus an independent byte->code-point conversion reports; test, capture, scan, splits, split/2, sub, gsub must be the documented compositions and terminate; every reported (offset, length) must slice the subject to the reported string. " +
 			".[i:j] and .[i] for all i, j in -(n+1)..n+1, length = explode|length, indices/index/rindex for every needle of length <= 2; long subjects with multi-byte prefixes of every length up to 120 code points.",
 		Assume:          []string{"Go's regexp (used directly by the harness) is the regex oracle; flags i and m translate to (?i) and (?s) as documented for gojq"},
 		Run:             c14Run,
